@@ -56,7 +56,7 @@ func checkC14(c *Ctx) (int, error) {
 	c.ev.Level = "fault_enumeration"
 	c.ev.Assumptions = []string{"for every history the destination fails at EVERY call index 1..N, N = number of destination calls of the fault-free run (counted at the host's acceleration level, +1 so that the last index is included when a level makes one call more)",
 		"histories exhaustive up to the stated length (TLC, WriterModel); payload bytes sampled; 'writes outside its own buffers' is observed through checkptr instrumentation of every unsafe pointer conversion in Go code and through crashes/heap corruption, not proved"}
-	if err := c.ModelCheck("WriterModel", "MC_WriterModel.cfg", 5*time.Minute); err != nil {
+	if err := c.writerModels(); err != nil {
 		return 0, err
 	}
 	maxLen, per := 4, 2
